@@ -1,25 +1,29 @@
-/* C23 (a): request line.  The real evhttp_parse_request_line() (method switch,
- * target split, evhttp_parse_http_version) on a symbolic line of up to VP_N
- * bytes against ref_reqline_parse() (RFC 9112 section 3).
+/* C23 (a): first line of a request.  The real evhttp_parse_firstline_() ->
+ * evhttp_parse_request_line() (method switch, target split,
+ * evhttp_parse_http_version) on a symbolic line of up to VP_N bytes (any byte
+ * but LF, NUL included) against ref_reqline_parse() (RFC 9112 section 3).
+ * The line is handed over by the contract model of evbuffer_readln
+ * (env/http_lines.h, one line or none).
  *
  * Cut (DESIGN 3.8): evhttp_uri_parse_with_flags / evhttp_uri_parse_authority
  * are replaced by a contract stub (goto-instrument --replace-calls): they read
  * the NUL-terminated string, do not modify it, and return an object or NULL;
  * which of the two is a harness input (URI syntax is property C28).
- *
- * Known finding predicate KF_REQLINE_WS: the bytes between the first and the
- * last SP of the line contain white space (SP, HTAB, VT, FF, CR).
  */
 #include "vp.h"
 #include "log_stub.h"
 #include "http_fmt.h"
 #include "http_alloc.h"
 #include "http.c"
-#include "http_ref.h"
-
 #ifndef VP_N
 #define VP_N 20
 #endif
+#define VP_L 1
+#include "http_lines.h"
+#define REF_MAXLINE (VP_N + 1)
+#include "http_ref.h"
+
+static char vp_inbuf_identity;
 
 /* ---- contract stub for the URI parser ---- */
 static struct evhttp_uri vp_uri_obj;
@@ -45,60 +49,45 @@ typedef char vp_chk_enum[(EVHTTP_REQ_GET == REF_REQ_GET && EVHTTP_REQ_POST == RE
     EVHTTP_REQ_LOCK == REF_REQ_LOCK && EVHTTP_REQ_UNLOCK == REF_REQ_UNLOCK && EVHTTP_REQ_COPY == REF_REQ_COPY &&
     EVHTTP_REQ_MOVE == REF_REQ_MOVE) ? 1 : -1];
 
-/* KF predicate: white space inside what the code takes as the target */
-static int kf_reqline_ws(const unsigned char *l, size_t len)
-{
-	size_t end = len, i, first = len, last = 0;
-	int ws = 0;
-	while (end > 0 && l[end - 1] == ' ') end--;
-	for (i = 0; i < end; i++)
-		if (l[i] == ' ') { if (first == len) first = i; last = i; }
-	if (first == len)
-		return 0;
-	for (i = first + 1; i < last; i++)
-		if (ref_is_lws(l[i])) ws = 1;
-	return ws;
-}
-
 void harness_reqline(void)
 {
-	char line[VP_N + 1];
 	unsigned char orig[VP_N + 1];
 	struct evhttp_request req;
 	struct evhttp_connection evcon;
 	struct ref_reqline R;
 	size_t len, i;
-	int r;
+	enum message_read_status st;
 
-	vp_bytes(line, VP_N);
-	len = (size_t)vp_range(0, VP_N);
-	line[len] = '\0';
-	/* evbuffer_readln hands over a NUL-terminated line; embedded NUL bytes are excluded here (see OUT) */
-	for (i = 0; i < VP_N; i++)
-		__CPROVER_assume(i >= len || (line[i] != '\0' && line[i] != '\n')); /* a line never contains LF */
+	vp_lines_buf = (struct evbuffer *)&vp_inbuf_identity;
+	vp_lines_symbolic(1);
+	vp_residual = vp_range(0, 4);
+	len = vp_line_len[0];
 	for (i = 0; i <= VP_N; i++)
-		orig[i] = i <= len ? (unsigned char)line[i] : 0;
-#ifdef KF_EXCLUDE_REQLINE_WS
-	__CPROVER_assume(!kf_reqline_ws(orig, len));
-#endif
-#ifdef KF_ONLY_REQLINE_WS
-	__CPROVER_assume(kf_reqline_ws(orig, len));
-#endif
+		orig[i] = (unsigned char)vp_lines[0][i];
 	memset(&req, 0, sizeof(req));
 	memset(&evcon, 0, sizeof(evcon));
 	req.evcon = &evcon;
 	req.kind = EVHTTP_REQUEST;
+	evcon.max_headers_size = EV_SIZE_MAX;
 	vp_uri_ok = vp_bool();
 
 	ref_reqline_parse(orig, len, &R);
-	r = evhttp_parse_request_line(&req, line, len);
+	st = evhttp_parse_firstline_(&req, vp_lines_buf);
 
-	VP_ASSERT(r == 0 || r == -1, "C23: evhttp_parse_request_line returns 0 or -1");
-	if (r == 0) {
+	if (vp_nlines == 0) {
+		VP_ASSERT(st == MORE_DATA_EXPECTED, "C23: no complete line buffered (and below the size limit): more data expected");
+		VP_ASSERT(vp_uri_calls + vp_uri_auth_calls == 0 && req.uri == NULL, "C23: nothing parsed before the first line is complete");
+		VP_WITNESS("incomplete first line");
+		return;
+	}
+	VP_ASSERT(st == ALL_DATA_READ || st == DATA_CORRUPTED, "C23: complete first line is accepted or refused");
+	VP_ASSERT(vp_line_next == 1, "C23: exactly the first line is consumed");
+	if (st == ALL_DATA_READ) {
 		VP_ASSERT(R.wellformed, "C23: request line accepted that is not 'method SP request-target SP HTTP-version' (RFC 9112 3)");
 		VP_ASSERT(vp_uri_ok, "C23: request accepted although its target was refused by the URI parser");
 		VP_ASSERT(vp_uri_calls + vp_uri_auth_calls == 1, "C23: target parsed exactly once");
 		VP_ASSERT(req.uri != NULL && vp_uri_arg == req.uri, "C23: the URI parser is given the stored request target");
+		VP_ASSERT(req.headers_size == len, "C23: first line accounted in headers_size");
 		if (R.wellformed) {
 			int same = 1;
 			for (i = 0; i < VP_N; i++)
